@@ -125,4 +125,20 @@ CLAIMS = {
         'technique': 'static analysis: protocol-conformance table, finite-domain abstract interpretation of each '
                      'dunder vs CPython operator protocol, reference resolution (ast only)',
     },
+    'C20': {
+        'text': "Recording is decided as a decision table: Feedback._handle_condition is executed abstractly over "
+                "condition outcome {true, truthy, false, falsy, raises} x message / else_message / justification "
+                "rendering {ok, raises} x report {present, None} (80 cells) and must record exactly once, in the right "
+                "list, with the right status and truth value, re-raising the same exception after recording. "
+                "Ownership sweeps show only _handle_condition calls add_feedback/add_ignored_feedback and only "
+                "Feedback.__init__/_handle_condition write _met_condition. A class table over all 170+ Feedback "
+                "subclasses checks (CFG) that every overriding __init__ reaches the base __init__ on all normal paths, "
+                "that nobody overrides _handle_condition/__bool__, and that delayed-condition groups finalise exactly "
+                "once in __exit__. Message/else/justification derivation and the format-spec dispatch are tabulated; "
+                "the formatter name table is checked against methods and suffix order; override backup/restore is "
+                "checked including the own-namespace rule for the lazily created backup dict.",
+        'note': _NOTE + "Not decided: correctness of each formatter's output text; instructor-defined subclasses.",
+        'technique': 'static analysis: finite-domain decision tables by abstract interpretation, who-may-call / '
+                     'who-writes sweeps, CFG must-pass-through over the Feedback class hierarchy (ast only)',
+    },
 }
